@@ -1026,6 +1026,8 @@ class Engine:
             return Obj(cls.swap_name(v.name, a, b), v.kind)
         if isinstance(v, Ptr):
             return Ptr(cls.swap_name(v.region, a, b), v.off)
+        if isinstance(v, tuple) and v and v[0] == 'lvptr' and isinstance(v[1], Ptr):
+            return ('lvptr', Ptr(cls.swap_name(v[1].region, a, b), v[1].off))
         if isinstance(v, tuple) and v and v[0] == 'ref' and isinstance(v[1], tuple):
             lv = v[1]
             if lv[0] == 'field':
@@ -1287,6 +1289,19 @@ class Engine:
             kids = children(n)
             for s in live:
                 if kids:
+                    if func.d.get('ret', '').endswith('&') and \
+                            strip_casts(kids[0]).get('k') == 'ArraySubscriptExpr':
+                        # a reference to an array element: the element must exist, the caller gets its address
+                        for lv, s1 in self.lvalue(kids[0], s, func):
+                            if s1.status == 'normal':
+                                if lv and lv[0] == 'mem' and lv[1] is not None:
+                                    self.access(s1, lv[1], 1, 'element', kids[0], func, write=False)
+                                    s1.ret = ('lvptr', lv[1])
+                                else:
+                                    s1.ret = UNKNOWN
+                                s1.status = 'return'
+                            out.append(s1)
+                        continue
                     for v, s1 in self.ev(kids[0], s, func):
                         if s1.status == 'normal':
                             s1.status = 'return'
@@ -1968,6 +1983,29 @@ def m_string_method(eng, n, st, func, want):
             out.append((Ptr(ov.name + '.data', 0), s1))
         elif short in ('end', 'cend'):
             out.append((Ptr(ov.name + '.data', eng.string_len(s1, ov.name)), s1))
+        elif short == 'substr':
+            # substr( pos, n): throws std::out_of_range if pos > size(), else min( n, size() - pos) characters
+            ln = eng.string_len(s1, ov.name)
+            for vals, s2 in _ev_all(eng, args[:2], s1, func):
+                pos = vals[0] if vals and isinstance(vals[0], Lin) else None
+                cnt = vals[1] if len(vals) > 1 and isinstance(vals[1], Lin) else None
+                if pos is None:
+                    return None
+                for beyond, s3 in eng.compare('>', pos, ln, s2, n, func):
+                    if beyond:
+                        s3.status = 'throw'
+                        s3.thrown = 'std::out_of_range'
+                        out.append((UNKNOWN, s3))
+                        continue
+                    name = 'str@%s#%d' % (n['id'], next(eng.counter))
+                    rl = eng.fresh('sublen', s3, 'unsigned long')
+                    s3.assume(le(rl, ln - pos))
+                    if cnt is not None:
+                        s3.assume(le(rl, cnt))
+                    s3.fields[(name, 'length')] = rl
+                    s3.regions[name + '.data'] = rl + 1
+                    eng.add_nul(s3, name + '.data', rl)
+                    out.append((Obj(name, 'std::string'), s3))
         else:
             return None
     return out
